@@ -268,8 +268,10 @@ void Init() {
   if (!t) t = "manifest";
   for (auto& ti : kTargets) if (!strcmp(ti.name, t)) { g_target = ti.fn; g_target_name = ti.name; }
   if (!g_target) { fprintf(stderr, "unknown FUZZ_TARGET %s\n", t); _exit(3); }
-  char tmpl[] = "/dev/shm/nfuzz-XXXXXX";
-  char* d = mkdtemp(tmpl);
+  const char* tag = getenv("NFUZZ_TAG");   // the owning check process: it sweeps only its own scratch
+  std::string dtmpl = std::string("/dev/shm/nfuzz-") + (tag ? tag : "0") + "-XXXXXX";
+  std::vector<char> tmpl(dtmpl.begin(), dtmpl.end()); tmpl.push_back(0);
+  char* d = mkdtemp(tmpl.data());
   g_scratch = d ? d : "/tmp";
   // ninja prints warnings / status on stdout+stderr: keep only sanitizer output (it uses its own fd handling)
   int devnull = open("/dev/null", O_WRONLY);
